@@ -30,7 +30,7 @@ package main
 // streams, before and after LOGIN / SELECT; cuts at every offset of a command (mid-token, mid-string,
 // mid-literal) followed by the disconnect; NUL / 8-bit / bare CR / LF; 1 MB lines; 19 / 20 / 21 / 40 erroneous
 // lines in a row with and without a well-formed line in between; IDLE with DONE / another command / garbage;
-// STARTTLS, TLS record headers, LOGOUT, DONE outside IDLE, literals; nesting bombs (10^5 levels; 6·10^5 and
+// STARTTLS, TLS record headers, LOGOUT, DONE outside IDLE, literals; nesting bombs (10^5 levels; 9·10^5 and
 // 2·10^7 in the thorough tier — the latter are judged against the model's answer for the same shape at 64 levels).
 
 import (
@@ -830,7 +830,7 @@ func c11sRunOracle(args []string) int {
 	replay := fs.String("replay", "", "")
 	n := fs.Int("n", 1500, "number of generated streams (besides the fixed ones)")
 	workers := fs.Int("workers", 4, "server children running at the same time")
-	big := fs.Int("big", 0, "0 = quick (nesting 10^5), 1 = thorough (also 6·10^5 levels, 1 MB lines in every position, 2·10^7 levels)")
+	big := fs.Int("big", 0, "0 = quick (nesting 10^5), 1 = thorough (also 9·10^5 levels, 1 MB lines in every position, 2·10^7 levels)")
 	wdMs := fs.Int("watchdog", 2000, "watchdog in ms")
 	capMB := fs.Int("rsscap", 3072, "kill the child above this resident set (MB)")
 	asMB := fs.Int("aslimit", 16384, "RLIMIT_AS of the child (MB, 0 = none)")
